@@ -40,7 +40,9 @@ Warm == << <<>>,
            <<Ix(1, 1), Ix(2, 1), Mg, Ix(1, 2), Ix(2, 2)>>,   \* all members re-indexed
            <<Ix(1, 1), Ix(2, 1), Mg, Un(1), Cl>>,            \* a member tombstoned by cleanup
            <<Ix(1, 1), Un(1), Cl>>,                          \* a shard in the trash
-           <<Ix(1, 1), Ix(2, 1), Mg, Ix(1, 2), Vc(0)>> >>    \* a compound shard with one member
+           <<Ix(1, 1), Ix(2, 1), Mg, Ix(1, 2), Vc(0)>>,      \* a compound shard with one member
+           <<Ix(1, 1), Ix(2, 1)>>,                           \* two simple shards
+           <<Ix(1, 1), Un(1), Cl, As(1), Ix(1, 2)>> >>       \* an old copy in the trash, a new one indexed
 
 RECURSIVE Run(_, _)
 \* states after each operation of ops, starting in s (first choice where an operation has several results)
